@@ -1,14 +1,18 @@
 #!/bin/bash
-# tools/seed_rerun.sh [id…]: apply each stored seeded change to /repo, run the property's check, undo, and refresh meta.json (caught / violations)
+# tools/seed_rerun.sh [id…]: apply each stored seeded change to a scratch worktree of /repo's HEAD (never to /repo itself, so that work in /repo is not disturbed),
+# run the property's check against it (VERIF_REPO), undo, and refresh meta.json (caught / violations)
 cd /verif
 IDS="$@"; [ -z "$IDS" ] && IDS=$(ls seeded)
+WT=/tmp/seedwt_$$
+git -C /repo worktree add -q --detach $WT HEAD || exit 2
+trap 'git -C /repo worktree remove --force $WT 2>/dev/null; git -C /repo worktree prune' EXIT
 for ID in $IDS; do
   D=/verif/seeded/$ID; [ -f $D/patch.diff ] || continue
   P=$(python3 -c "import json;print(json.load(open('$D/meta.json'))['property'])")
-  if ! git -C /repo apply --check $D/patch.diff 2>/dev/null; then echo "$ID: patch no longer applies"; continue; fi
-  git -C /repo apply $D/patch.diff
-  VERIF_NO_EVIDENCE=1 timeout 1500 ./check $P > $D/check_output.txt 2>&1; RC=$?
-  git -C /repo checkout -- .
+  if ! git -C $WT apply --check $D/patch.diff 2>/dev/null; then echo "$ID: patch no longer applies"; continue; fi
+  git -C $WT apply $D/patch.diff
+  VERIF_REPO=$WT VERIF_NO_EVIDENCE=1 timeout 1500 ./check $P > $D/check_output.txt 2>&1; RC=$?
+  git -C $WT checkout -- .
   python3 - "$D" "$RC" <<'PY'
 import json,sys,re
 d,rc=sys.argv[1],int(sys.argv[2])
@@ -20,4 +24,3 @@ json.dump(m,open(d+'/meta.json','w'),indent=1)
 print("%-45s exit=%d %s %s" % (m['id'],rc,m['violations'][:2],m['undecided']))
 PY
 done
-git -C /repo status --short | grep -v target
